@@ -116,6 +116,11 @@ def run(ck, rng, tier, prop="C01"):
     for i, (mt, o) in enumerate(zip(meta, outs)):
         if o is None:
             continue
+        nf_ = None if o.get("nonterminating") else vf.first_nonfinite(o)
+        if nf_:
+            # finite in-domain data: every stored result is a finite number (tolerance comparisons below are blind to NaN)
+            ck.fail("PCA", "not_finite", "the output `%s` holds NaN/Inf" % nf_, {"case": str(mt)[:3000]})
+            continue
         X, New, scaling, npc, nproc, rank, kind = mt
         n, m = len(X), len(X[0])
         ck.case(("pca", n, m, scaling, npc, repr(X[0])), nontrivial=n >= 3 and npc >= 1,
